@@ -1,6 +1,7 @@
 package main
 
 import (
+	"time"
 	"context"
 	"errors"
 	"fmt"
@@ -460,6 +461,9 @@ func judgeCancel(c Case, o observed) []finding {
 // panic item arrives within k reads" would be a timing oracle.)
 func runMergeSchema(w *world, c Case) ([]finding, string) {
 	f := failure{kind: c.Kind}
+	if c.Via == "convert-lag" {
+		return runMergeLag(w, c, f)
+	}
 	mk := func(src int, panics bool) *schema.StreamReader[string] {
 		arr := make([]int, c.Chunks)
 		for i := range arr {
@@ -519,4 +523,78 @@ func runMergeSchema(w *world, c Case) ([]finding, string) {
 	}
 	sort.Strings(others)
 	return []finding{{"merged-stream:panic-value-lost", fmt.Sprintf("a convert function panicked with %q inside a merged stream; %d chunks and %d error items were delivered but no error item mentions the panic: %v", f.text(), items, errItems, others)}}, oc
+}
+
+
+// runMergeLag: source 0 panics at chunk PanicAt of 10 while its forwarder's buffer is full (the reader has only
+// taken PanicAt-5 of its items and then waits until the panic has happened). The error item must still reach
+// the reader. (The pause after the signal only gives the forwarder time to reach its send; a correct
+// implementation delivers the item however long that takes, so the verdict cannot be a false alarm.)
+func runMergeLag(w *world, c Case, f failure) ([]finding, string) {
+	panicked := make(chan struct{})
+	mk := func(src int, panics bool) *schema.StreamReader[string] {
+		n := c.Chunks
+		if !panics {
+			n = 1
+		}
+		arr := make([]int, n)
+		for i := range arr {
+			arr[i] = i
+		}
+		return schema.StreamReaderWithConvert(schema.StreamReaderFromArray(arr), func(i int) (string, error) {
+			w.execs.Add(1)
+			if panics && i == c.PanicAt {
+				close(panicked)
+				_ = f.fire()
+			}
+			return fmt.Sprintf("s%d-%d", src, i), nil
+		})
+	}
+	var srs []*schema.StreamReader[string]
+	for s := 0; s < c.Sources; s++ {
+		srs = append(srs, mk(s, s == c.PanicSrc))
+	}
+	r := schema.MergeStreamReaders(srs)
+	defer r.Close()
+	fromPanicking := 0
+	items, errItems, mention := 0, 0, false
+	var others []string
+	waited := false
+	for {
+		if !waited && fromPanicking >= c.PanicAt-5 {
+			select {
+			case <-panicked:
+			case <-time.After(20 * time.Second):
+				return []finding{{"merged-stream:hang", "the convert function was never reached although the reader left room for it"}}, "merge-lag:hang"
+			}
+			time.Sleep(50 * time.Millisecond)
+			waited = true
+		}
+		v, err := r.Recv()
+		if err == io.EOF {
+			break
+		}
+		if err != nil {
+			errItems++
+			if strings.Contains(err.Error(), f.text()) {
+				mention = true
+			} else {
+				others = append(others, clean(err))
+			}
+			continue
+		}
+		items++
+		if strings.HasPrefix(v, fmt.Sprintf("s%d-", c.PanicSrc)) {
+			fromPanicking++
+		}
+	}
+	oc := fmt.Sprintf("merge-lag:mention=%v", mention)
+	if mention {
+		return nil, oc
+	}
+	if errItems == 0 {
+		return []finding{{"merged-stream:panic-swallowed", fmt.Sprintf("a convert function panicked with %q inside a merged stream while the forwarding buffer was full; %d chunks were delivered and the stream ended without any error item", f.text(), items)}}, oc
+	}
+	sort.Strings(others)
+	return []finding{{"merged-stream:panic-value-lost", fmt.Sprintf("a convert function panicked with %q inside a merged stream; no error item mentions the panic: %v", f.text(), others)}}, oc
 }
